@@ -129,6 +129,7 @@ class SimRandom:
         self.last_unit = None
         self.probe = None  # when set: callable(vector)->index, nothing is logged/drawn
         self.script = None  # when set: list of values served to rand/randint (probes; no tape)
+        self.real_choice = None
         self.last_ints = []
         self.seeds = []
 
@@ -150,6 +151,19 @@ class SimRandom:
         else:
             u = self.tape.unit()
             idx = int(np.searchsorted(np.cumsum(p), u, side="right"))
+            if idx < len(p) and self.real_choice is not None:
+                # keep MCHap's own random_choice in the loop: fed the same uniform it must
+                # return the inverse-CDF index (the draw is distributed as the vector says)
+                self.script = [u]
+                try:
+                    got = int(self.real_choice(np.array(probabilities, dtype=np.float64)))
+                finally:
+                    self.script = None
+                self.ctx.counters.inc("choice_fidelity_checked")
+                if got != idx:
+                    raise Violation("random_choice_not_faithful",
+                                    "jitutils.random_choice returned index %d for uniform %r and vector %r; inverse CDF gives %d" % (got, u, p.tolist(), idx),
+                                    self.ctx.step, {"vector": p, "uniform": u})
             if idx >= len(p):
                 idx = pos[-1]
             if p[idx] <= 0.0:
@@ -237,6 +251,9 @@ class SimRandom:
         np = self.np
         for name in ("rand", "random", "randint", "choice", "shuffle", "permutation", "seed"):
             seams.set(np.random, name, getattr(self, name))
+        jit = bootstrap()["jitutils"]
+        if self.real_choice is None and jit.random_choice is not self.random_choice:
+            self.real_choice = jit.random_choice
         for mod in choice_modules:
             seams.set(mod, "random_choice", self.random_choice)
 
